@@ -312,6 +312,26 @@ def pair(ctx: Any) -> List[Ob]:
     oc2, _ = traces(ctx, proc, canc, eff, loop_bound=1, for_iter=lambda n, e: False)
     got2 = {tuple(x for x in strip_ret(t)) for t in oc2}
     obs.append(ob(R, proc, 'if query.cancelled: heappop(...)', 'a cancelled query is discarded without touching the map (its entry was removed when it was cancelled)', bool(got2) and all('UNMAP' not in t and 'POP' in t for t in got2), str(sorted(got2))))
+    # the schedule as a whole (heap and map) is thrown away only when the browser is cancelled: records can be learned -- and
+    # scheduled -- from the moment the browser's listener is installed, which is before the scheduler is started, so nothing on the
+    # start-up or running paths may discard what is scheduled
+    def discards(m_: FuncInfo) -> bool:
+        mm = m_.params[0] if m_.params else 'self'
+        for x in walk_local_ordered(m_.node):
+            if isinstance(x, ast.Call) and call_name(x) == 'clear' and isinstance(x.func, ast.Attribute) and self_attr(x.func.value, mm) in ('_query_heap', '_next_scheduled_for_alias'):
+                return True
+            if isinstance(x, ast.Assign) and any(self_attr(t, mm) in ('_query_heap', '_next_scheduled_for_alias') for t in x.targets) and m_.name != '__init__':
+                return True
+        return False
+
+    wipers = [m_ for m_ in qs.methods.values() if discards(m_)]
+    if not wipers:
+        raise AnalysisError('anchor vanished: where the scheduler discards its heap and map (stop)')
+    entry_pts = [qs.methods[n_] for n_ in ('start', '_process_startup_queries', '_process_ready_types', 'reschedule_ptr_first_refresh', 'schedule_rescue_query', 'cancel_ptr_refresh', '_schedule_ptr_refresh', '_schedule_ptr_query') if n_ in qs.methods]
+    for ep in entry_pts:
+        reach = ctx.cg.closure([ep], include_deferred=False)
+        hit = [w for w in wipers if w in reach]
+        obs.append(ob(R, ep, f'{ep.name}() ... {hit[0].name if hit else wipers[0].name}()', 'starting, running and rescheduling never discard the queries already scheduled (only cancelling the browser does)', not hit, f'{ep.name} reaches {hit[0].name}, which clears the heap / the schedule map: records learned before the scheduler starts lose their refresh queries' if hit else ''))
     # cancel
     cf = qs.methods['cancel_ptr_refresh']
     me = cf.params[0]
